@@ -16,7 +16,9 @@ const (
 	Failed
 )
 
-func (s State) String() string { return [...]string{"Defined", "Started", "LockedIn", "Active", "Failed"}[s] }
+func (s State) String() string {
+	return [...]string{"Defined", "Started", "LockedIn", "Active", "Failed"}[s]
+}
 
 // Deployment is the definition of one soft-fork deployment.
 type Deployment struct {
